@@ -660,6 +660,15 @@ verif_commit_done:;
 
     int extra_info = 1;
 
+#ifdef SQISIGN_SQISIGN2D_WEST_AC24_VERIF
+    /* H3s: backtracking, v2, chain length, strategies row, ec_dbl_iter count on the bases */
+    verif_trace("dim2.sign",
+                backtracking,
+                exp_diadic_val_full_resp,
+                pow_dim2_deg_resp,
+                TORSION_PLUS_EVEN_POWER - pow_dim2_deg_resp,
+                TORSION_PLUS_EVEN_POWER - pow_dim2_deg_resp - exp_diadic_val_full_resp - 2);
+#endif
     // computation of the dim2 isogeny
     theta_chain_comput_strategy(&isog,
                                 pow_dim2_deg_resp,
